@@ -178,6 +178,8 @@ NAMED_DAGS = {
     "caterpillar": (10, ((0, 1), (1, 2), (2, 6), (7, 2), (2, 3), (3, 8), (9, 3), (3, 4), (4, 5))),
     "double_diamond": (7, ((0, 1), (0, 2), (1, 3), (2, 3), (3, 4), (3, 5), (4, 6), (5, 6))),
     "ladder": (6, ((0, 1), (0, 2), (1, 2), (1, 3), (2, 4), (3, 4), (3, 5), (4, 5))),
+    # a stem, then a branching with a chord and two sinks (three routes; long windows for the flow-safe path scan)
+    "kite": (6, ((0, 1), (1, 2), (1, 3), (2, 3), (2, 4), (3, 4), (3, 5))),
 }
 
 
